@@ -62,7 +62,8 @@ structure Fix where
   /-- `true`: a pair whose stored expiry is `≤ now` is loaded and deleted again (proposed `fix:`);
       `false` (pinned tree): it is loaded with `ttl = None`, i.e. becomes immortal. -/
   dropExpired : Bool
-  /-- `true`: a marker-only list (an empty stream) creates the empty stream key (proposed `fix:`);
+  /-- `true`: a stream without entries comes back as an empty stream — a marker-only record (ad4770a) creates
+      the key, and so does the last-ID pseudo entry (3c61a3a: `xrestore_last_id`);
       `false` (pinned tree): nothing is created, the key is lost. -/
   keepEmptyStream : Bool
   /-- `true`: under the LIST opcode a first element equal to the escape string is dropped and the
@@ -116,6 +117,29 @@ def encZItems (zs : List (Bytes × Nat)) : Bytes := zs.flatMap encZItem
 /-- `StreamId::to_string` -/
 def idString (e : SEntry) : Bytes := natDigits e.ms ++ 45 :: natDigits e.seq
 
+/-- ID of the last entry, `0-0` for an empty stream (`last_id` of a stream built by `add_with_id`). -/
+def lastId : List SEntry → Nat × Nat
+  | [] => (0, 0)
+  | [e] => (e.ms, e.seq)
+  | _ :: e :: es => lastId (e :: es)
+
+/-- `b"__FERROUS_STREAM_LAST_ID__"` (26 bytes): where an entry ID would be, it introduces the pseudo entry that
+    carries the stream's last ID (3c61a3a). -/
+def lastIdMarker : Bytes :=
+  [95, 95, 70, 69, 82, 82, 79, 85, 83, 95, 83, 84, 82, 69, 65, 77, 95, 76, 65, 83, 84, 95, 73, 68, 95, 95]
+
+def idText (p : Nat × Nat) : Bytes := natDigits p.1 ++ 45 :: natDigits p.2
+
+/-- The pseudo entry written right after the stream marker: the marker string above as "entry ID", the pair
+    count `1`, the last ID as the field name, an empty value.  A loader that does not know it reads an entry
+    with an unparsable ID and skips it.
+    MODELLED, NOT VERIFIED HERE: the code writes `stream.last_id()`, the greatest ID ever added; this model of the
+    dump format has no such component and writes the greatest PRESENT ID (`0-0` for an emptied stream) — equal
+    unless the top entries were deleted or trimmed.  That the last ID itself survives a restart is C15's
+    (`last_id_monotone` over histories with restarts, tied by a real save + load in its harness). -/
+def encLastId (es : List SEntry) : Bytes :=
+  encString lastIdMarker ++ (encString [49] ++ (encString (idText (lastId es)) ++ encString []))
+
 /-- ID string, field-count string, then the field/value strings -/
 def encSEntry (e : SEntry) : Bytes :=
   encString (idString e) ++ (encString (natDigits e.fields.length) ++ encPairs e.fields)
@@ -142,7 +166,7 @@ def encValue : Value → Bytes
   | .set xs => encLen xs.length ++ encStrings xs
   | .hash fs => encLen fs.length ++ encPairs fs
   | .zset zs => encLen zs.length ++ encZItems zs
-  | .stream es => encLen (1 + streamItems es) ++ (encString marker ++ encSEntries es)
+  | .stream es => encLen (1 + 4 + streamItems es) ++ (encString marker ++ (encLastId es ++ encSEntries es))
 
 /-- type byte, key, value -/
 def encKV (k : Bytes) (v : Value) : Bytes := typeByte v :: (encString k ++ encValue v)
@@ -393,12 +417,6 @@ def zaddMore (db : Db) (k : Bytes) (items : List (Bytes × Nat)) : Db :=
   | some ⟨_, .zset zs, dl⟩ => putEntry db ⟨k, .zset (upsertAll zs items), dl⟩
   | _ => db
 
-/-- ID of the last entry, `0-0` for an empty stream (`last_id` of a stream built by `add_with_id`). -/
-def lastId : List SEntry → Nat × Nat
-  | [] => (0, 0)
-  | [e] => (e.ms, e.seq)
-  | _ :: e :: es => lastId (e :: es)
-
 def idLt (a b : Nat × Nat) : Bool := a.1 < b.1 || (a.1 == b.1 && a.2 < b.2)
 
 /-- `let _ = storage.xadd_with_id(…)`: every error (bad database, wrong type, ID not above the
@@ -474,11 +492,47 @@ def streamLoop (valid : Bool) (k : Bytes) (remaining : Nat) : Nat → Nat → Db
       if idx + 2 + fc * 2 > remaining then .ok db r2 []      -- `checked_mul` / `checked_add` since 0782b81: no wrap-around
       else
         (readPairs fc r2).bind fun fvs r3 =>
-        let fields := upsertAll [] fvs
-        let db' := match parseStreamId idStr with
-          | some id => xaddIgnore valid db k ⟨id.1, id.2, fields⟩
+        let db' := match parseStreamId idStr with      -- (the last-ID pseudo entry has no parsable ID: skipped here)
+          | some id => xaddIgnore valid db k ⟨id.1, id.2, fvs⟩      -- pairs as read, in order (a `Vec` since dba6ef6)
           | none => db
         streamLoop valid k remaining f ((idx + 2 + 2 * fc) % two64) db' r3
+
+/-- `saved_last_id.is_some()` at the end of the same loop: the LATEST pseudo entry decides (its first field name
+    must parse as an ID).  The loop's control flow does not depend on the database, so this reads the same
+    strings as `streamLoop`; its value matters only when `streamLoop` succeeds. -/
+def streamSaved (remaining : Nat) : Nat → Nat → Bool → Bytes → Bool
+  | 0, _, s, _ => s
+  | f+1, idx, s, bs =>
+    if ¬ idx < remaining then s
+    else if (idx + 2) % two64 ≥ remaining then s
+    else
+      match readString bs with
+      | .err _ _ => s
+      | .ok idStr r1 _ =>
+        match readString r1 with
+        | .err _ _ => s
+        | .ok fcStr r2 _ =>
+          let fc := (parseU64 fcStr).getD 0
+          if idx + 2 + fc * 2 > remaining then s
+          else
+            match readPairs fc r2 with
+            | .err _ _ => s
+            | .ok fvs r3 _ =>
+              let s' := if idStr = lastIdMarker then
+                  (match fvs with
+                   | (fld, _) :: _ => (parseStreamId fld).isSome
+                   | [] => false)
+                else s
+              streamSaved remaining f ((idx + 2 + 2 * fc) % two64) s' r3
+
+/-- `xrestore_last_id`: the key exists afterwards (an emptied stream comes back as an empty stream); the last
+    ID it raises is not a component of this model (see `encLastId`). -/
+def ensureStream (valid : Bool) (db : Db) (k : Bytes) : Except Err Db :=
+  if !valid then .error .invalidDb else
+  match findKey db k with
+  | none => .ok (putEntry db ⟨k, .stream [], none⟩)
+  | some ⟨_, .stream _, _⟩ => .ok db
+  | some _ => .error .wrongType
 
 /-- The plain-list loop of the loader on `n` elements: `read_string` + `rpush` each, then `expire`
     (summarised as explained at `loadTyped`).  Nothing is created for `n = 0`. -/
@@ -522,7 +576,8 @@ def loadTyped (fix : Fix) (valid : Bool) (db : Db) (ty : Nat) (dl : Option Nat) 
       if first = marker then
         (lift (if fix.keepEmptyStream ∧ n - 1 = 0 then setValue valid db ⟨k, .stream [], none⟩ else .ok db) r2).bind fun db0 r2' =>
         (streamLoop valid k (n - 1) (r2'.length + 1) 0 db0 r2').bind fun db1 r3 =>
-        (lift (expireOpt valid db1 k dl) r3).bind fun db2 r4 => .ok (k, db2) r4 []
+        (lift (if fix.keepEmptyStream ∧ streamSaved (n - 1) (r2'.length + 1) 0 false r2' then ensureStream valid db1 k else .ok db1) r3).bind fun db1' r3' =>
+        (lift (expireOpt valid db1' k dl) r3').bind fun db2 r4 => .ok (k, db2) r4 []
       else if fix.listEscape ∧ first = escape then
         loadPlainList valid db k dl (n - 1) r2
       else
@@ -672,7 +727,7 @@ def valueWF : Value → Bool
   | .hash fs => decide (fs.length < two32) && decide ((fs.map (·.1)).Nodup) && fs.all pairOk
   | .zset zs => !zs.isEmpty && decide (zs.length < two32) && decide ((zs.map (·.1)).Nodup) &&
       zs.all fun p => strOk p.1 && decide (p.2 < two64)
-  | .stream es => decide (1 + streamItems es < two32) && idsIncreasing (0, 0) es && es.all sentryWF
+  | .stream es => decide (1 + 4 + streamItems es < two32) && idsIncreasing (0, 0) es && es.all sentryWF
 
 def entryWF (e : Entry) : Bool :=
   strOk e.key && valueWF e.val &&
